@@ -55,14 +55,19 @@ Qed.
 
 (* ---- non-interference: erasing a read-only node from a voter ---- *)
 Definition erase_ro (x : nid) (n : node) : node :=
-  n <| readonly := sdel x (readonly n) |> <| connected := sdel x (connected n) |> <| tconn := sdel x (tconn n) |>
-    <| next_idx := adel x (next_idx n) |> <| match_idx := adel x (match_idx n) |>
-    <| last_resp := adel x (last_resp n) |> <| sr := (sr n) <| trans := adel x (trans (sr n)) |> |>.
+  mkNode (self n) (others n) (sdel x (readonly n)) (sdel x (connected n)) (sdel x (tconn n))
+         (role n) (term n) (voted n) (votes n) (leader n) (deadline n) (log n) (commit n) (applied n)
+         (adel x (next_idx n)) (adel x (match_idx n)) (adel x (last_resp n))
+         (last_ser_time n) (last_ser_entry n) (force_compact n) (leader_commit n) (ready_called n)
+         (change_idx n) (noop_idx n) (recv_t n) (start_time n) (sec_dumps n) (need_load n) (new_ae_time n)
+         (wait_commit n) (local_ctr n) (wait_reply n) (queue n)
+         (mkSer (pid (sr n)) (cur_id (sr n)) (stored (sr n)) (adel x (trans (sr n))) (incoming (sr n)))
+         (hist n) (enabled_ver n) (self_ver n) (meta_commit n) (meta_dirty n) (replay_idx n).
 
 Definition not_to (x : nid) (o : out) : bool := match o with Send d _ => negb (d =? x) | _ => true end.
 
 Definition erase_S (x : nid) (s : S) : S :=
-  s <| nd := erase_ro x (nd s) |> <| outs := filter (not_to x) (outs s) |>.
+  mkS (erase_ro x (nd s)) (filter (not_to x) (outs s)) (exc s) (tnow s) (used s) (jmp s) (njmp s).
 
 (* the full statement: one tick / one delivery of a voter, with and without an attached read-only node
    x, agree up to x's slots and the outputs addressed to x, when no send loop is cut by the clock *)
@@ -161,7 +166,7 @@ Lemma erase_fold_send : forall x (f : nid -> msg) l s,
   ~ In x l ->
   erase_S x (fold_left (fun s y => send y (f y) s) l s) = fold_left (fun s y => send y (f y) s) l (erase_S x s).
 Proof.
-  intros x f l; induction l as [|a l IH]; intros s Hx; [reflexivity|].
+  intros x f l; induction l as [|a l IH]; intros s Hx; [cbn [fold_left]; reflexivity|].
   assert (a <> x) as Ha by (intros ->; apply Hx; left; reflexivity).
   cbn [fold_left]. rewrite IH by (intros H; apply Hx; right; exact H).
   apply f_equal. apply erase_send; exact Ha.
@@ -218,10 +223,8 @@ Proof.
   match goal with |- context [on_leader_changed ?Y] =>
     destruct (fr_on_leader_changed true Y) as (ex & _ & _ & C & _); destruct (core_fields _ _ C) as (_ & _ & _ & _ & -> & _);
     assert (others (nd (on_leader_changed Y)) = others (nd Y)) as -> end.
-  { unfold on_leader_changed. cbn [nd upd set].
-    match goal with |- others (nd (fold_left ?g ?l ?Y)) = _ => generalize l; generalize Y end.
-    intros Y l; revert Y; induction l as [|a l IH]; intros Y; cbn [fold_left]; [reflexivity|].
-    rewrite IH. unfold fire; destruct (snd a); reflexivity. }
+  { match goal with |- others (nd (on_leader_changed ?Y)) = _ => destruct (mq_on_leader_changed Y) as (M & _) end.
+    unfold mem_part in M. injection M as M1 _ _ _. exact M1. }
   match goal with |- context [fold_left (fun s y => send y (@?f y) s) ?l ?Y] => rewrite !(nd_fold_send f l Y) end.
   unfold set_role; cbv zeta. destruct (_ =? CANDIDATE); split; reflexivity.
 Qed.
